@@ -18,22 +18,41 @@
 namespace vf {
 
 // ---------------------------------------------------------------- PRNG
+// Coverage-guided mode (VF_FUZZ builds, libFuzzer): every random decision of the generators is read from the fuzzer's byte
+// string instead of the PRNG, one byte per small decision, so that libFuzzer's mutations are mutations of the operation history.
+static const uint8_t *g_fz_data = nullptr;
+static size_t g_fz_size = 0, g_fz_pos = 0;
+static bool g_fz_on = false, g_fz_exhausted = false;
+inline uint64_t fz_take(int nbytes) {
+  uint64_t v = 0;
+  for (int i = 0; i < nbytes; ++i) {
+    if (g_fz_pos >= g_fz_size) { g_fz_exhausted = true; return v; }
+    v = (v << 8) | g_fz_data[g_fz_pos++];
+  }
+  return v;
+}
+
 struct Rng {
   uint64_t s;
-  explicit Rng(uint64_t seed = 1) : s(seed * 0x9E3779B97F4A7C15ull + 0xD1B54A32D192ED03ull) { next(); next(); }
-  static uint64_t mix(uint64_t a, uint64_t b, uint64_t c) {
-    uint64_t z = a * 0x9E3779B97F4A7C15ull ^ (b + 0xBF58476D1CE4E5B9ull) * 0x94D049BB133111EBull ^ (c << 32 | c >> 32);
-    z ^= z >> 31; z *= 0xD6E8FEB86659FD93ull; z ^= z >> 29;
-    return z;
-  }
-  uint64_t next() {
+  explicit Rng(uint64_t seed = 1) : s(seed * 0x9E3779B97F4A7C15ull + 0xD1B54A32D192ED03ull) { raw(); raw(); }
+  uint64_t raw() {
     uint64_t z = (s += 0x9E3779B97F4A7C15ull);
     z = (z ^ (z >> 30)) * 0xBF58476D1CE4E5B9ull;
     z = (z ^ (z >> 27)) * 0x94D049BB133111EBull;
     return z ^ (z >> 31);
   }
+  static uint64_t mix(uint64_t a, uint64_t b, uint64_t c) {
+    uint64_t z = a * 0x9E3779B97F4A7C15ull ^ (b + 0xBF58476D1CE4E5B9ull) * 0x94D049BB133111EBull ^ (c << 32 | c >> 32);
+    z ^= z >> 31; z *= 0xD6E8FEB86659FD93ull; z ^= z >> 29;
+    return z;
+  }
+  uint64_t next() { return g_fz_on ? fz_take(4) : raw(); }
   // uniform in [0, n)   (n > 0)
-  uint32_t below(uint32_t n) { return n == 0 ? 0 : static_cast<uint32_t>(next() % n); }
+  uint32_t below(uint32_t n) {
+    if (n == 0) return 0;
+    if (g_fz_on) return static_cast<uint32_t>(fz_take(n <= 256 ? 1 : n <= 65536 ? 2 : 4) % n);
+    return static_cast<uint32_t>(raw() % n);
+  }
   bool chance(uint32_t num, uint32_t den) { return below(den) < num; }
   int range(int lo, int hi) { return lo + static_cast<int>(below(static_cast<uint32_t>(hi - lo + 1))); }
 };
